@@ -126,6 +126,18 @@ def make_invocation(rng, world, with_faults):
           "_lib": {"rule": e["rel"], "input": inp, "type": "binary" if binary else "assembly", "search": "all" if all_matches else "first",
                    "only_addr": only_addr, "macros": macros},
           "_tag": f"{e['family']}:{e['variant']}"}
+    if usage is None and not binary and inp in files and len(util.dec_content(files[inp])) < 60000 and rng.random() < 0.05:
+        # the listing arrives on a pipe: `... | jasm -p rule -s /dev/stdin` (readable once, not seekable)
+        op["stdin_pipe"] = inp
+        op["argv"] = ["/dev/stdin" if a == inp else (a.replace(inp, "/dev/stdin") if a.endswith(inp) and a != inp else a) for a in op["argv"]]
+        op["_lib"]["input"] = "/dev/stdin"
+    if usage is None and rng.random() < 0.12:
+        # an earlier invocation ran in the same working directory and left whatever it leaves (logs/, ...)
+        same = [x for x in pool if x["family"] == e["family"] and x["rel"] != e["rel"] and x["family"] != "broken"] or [e]
+        e2 = rng.choice(same)
+        op["_after"] = {"op": "cli", "argv": ["-p", e2["rel"], "-b" if binary else "-s", op["_lib"]["input"]] + (["--macros"] + list(e2["macros"]) if e2.get("macros") else [])}
+        if op.get("stdin_pipe"):
+            op["_after"]["stdin_pipe"] = op["stdin_pipe"]
     if rng.random() < 0.08:
         op["warnings_error"] = True  # python -W error: a warning anywhere on the way becomes an exception
     if usage is None and rng.random() < 0.15:
@@ -161,6 +173,8 @@ def lib_ops(op):
     envf = [f for f in (op.get("faults") or []) if not f["kind"].startswith("log_") and f.get("target") not in ("logs",) and not str(f.get("target", "")).startswith("logs")]
     base = {"op": "match", "rule": lib["rule"], "input": lib["input"], "type": lib["type"], "search": lib["search"],
             "only_addr": lib["only_addr"], "macros": lib["macros"], "faults": envf}
+    if op.get("stdin_pipe"):
+        base["stdin_pipe"] = op["stdin_pipe"]
     if op.get("warnings_error"):
         base["warnings_error"] = True
     return {**base, "ret": "bool"}, {**base, "ret": "list"}
@@ -231,6 +245,9 @@ def check_invocation(files, op, runner, seed=0):
     if op.get("_prelogs"):
         files = {**files, **PRELOGS[op["_prelogs"]]}
     runner.reset(files) if runner.state else runner.materialise(files)
+    if op.get("_after"):
+        # one process per invocation, same working directory, nothing cleaned up in between
+        runner.run([op["_after"]], seed, keep_logs=True)
     res = runner.run([op], seed)
     got = res["outcomes"][0]
     ob, ol = lib_ops(op)
@@ -288,7 +305,18 @@ def calibrate(files, op, got, runner):
                     fh.write(f"#!/bin/sh\necho 'objdump: simulated failure' >&2\nexit {int(f.get('code', 1))}\n")
                 os.chmod(os.path.join(bindir, "objdump"), 0o755)
                 env["PATH"] = bindir + ":/usr/bin:/bin"
-        p = subprocess.run([sys.executable, "-m", "jasm.main"] + op["argv"], cwd=root, env=env, capture_output=True, text=True, timeout=120)
+        stdin_data = None
+        if op.get("stdin_pipe"):
+            stdin_data = util.dec_content(files[op["stdin_pipe"]])[:60000]
+        if op.get("_after"):
+            subprocess.run([sys.executable, "-m", "jasm.main"] + op["_after"]["argv"], cwd=root, env=env, capture_output=True, input=stdin_data, timeout=120)
+        pr = subprocess.run([sys.executable, "-m", "jasm.main"] + op["argv"], cwd=root, env=env, capture_output=True, input=stdin_data, timeout=120)
+
+        class _P:  # decoded view
+            returncode = pr.returncode
+            stdout = pr.stdout.decode("utf-8", "replace")
+            stderr = pr.stderr.decode("utf-8", "replace")
+        p = _P
     finally:
         runner.materialise(files)
     verdict, addrs, _n = simchild.parse_cli_stderr(p.stderr + "\n" + p.stdout)
